@@ -49,6 +49,21 @@ def check(ctx):
     core = ret
     while core is not None and core.op == "assume":
         core = core.args[1]
+    # a mode argument: the encoding of a tuple must not depend on anything but the tuple.  If the result depends on a further
+    # parameter, every caller has to pass the same constant (or nothing); a value computed from the table at hand (e.g. "does any
+    # value contain the separator") makes fit-time and predict-time keys of the same tuple differ
+    extra = {t: n_ for n_, t in r.params.items() if t is not fc}
+    if ret is not None and extra and contains(ret, lambda s_: s_ in extra):
+        Av = Analysis(ctx, no_inline=[fq], max_depth=1)
+        rv = Av.run(M_IV + ":_validate_and_reformat_input")
+        for cs in calls_to(rv, fq):
+            given = list(cs.data["args"][1:]) + [v for k_, v in cs.data["kwargs"] if k_ != "feature_columns"]
+            nonconst = [g for g in given if g.op != "const"]
+            if nonconst:
+                violated = ("the merged name of a value tuple depends on a per-call argument computed at run time (" +
+                            show(nonconst[0], maxdepth=3)[:60] + "): the same tuple is keyed differently in two calls (fit vs. predict), "
+                            "so rows no longer group by tuple equality across calls")
+                break
     # gather through np.unique:  merged_of_distinct_rows[inverse]  - sound only when the uniqueness key identifies the tuple
     if core is not None and core.op == "sub" and core.args[1].op == "sub" and core.args[1].args[0].op == "call" \
             and core.args[1].args[0].args[0] is glob("numpy.unique"):
